@@ -165,8 +165,8 @@
        defined in Proofs/Owned2.v on top of the model's IntoIter::next (the model
        has one IntoIter with a `kind` in Exec.v), so that they match the crate's
        IntoKeys / IntoValues is part of the correspondence check;
-     - Entry API: or_insert_with_key has lemmas in Owned2 (conserves_or_insert_with_key and its _vacant, _occupied variants)
-       that are not restated here; Entry::or_default, Entry::key, OccupiedEntry::get
+     - Entry API: or_insert_with_key is NOW restated (C02_conserves_or_insert_with_key; its _vacant, _occupied
+       variants in Owned2 are not); Entry::or_default, Entry::key, OccupiedEntry::get
        / get_mut / into_mut / key move nothing (C11);
      - Clone: C02_clone_acct is stated for the model's clone_from_src into an EMPTY
        TIDY container of the source's capacity (what Map::clone starts from);
@@ -186,6 +186,27 @@
        all states reachable from new_map (new_map is Tidy and every conserving
        call preserves Tidy on normal return; after a panic Tidy may be lost,
        which is the tolerated leak of C04).
+   AUDIT ADDENDUM (end of this file, lemmas in Proofs/MoreOwned.v) - NOW COVERED:
+     - "destroyed exactly once OVERALL": the per-call triples composed over any
+       history, every environment          C02_run_acct, C02_run_NoDup,
+                                           C02_run_no_double_drop, C02_run_NoDup_prefix,
+                                           C02_run2_NoDup, C02_srun_NoDup
+     - Tidy along a run, exact accounting (lawful environment)
+                                           C02_step_tidy, C02_run_tidy, C02_run_exact,
+                                           C02_run_exact_new, C02_srun_tidy, C02_srun_exact
+     - into_iter / into_keys / into_values partially consumed then dropped
+                                           C02_into_session_logs, C02_into_session_NoDup,
+                                           C02_into_session_acct, C02_into_keys_session_acct,
+                                           C02_into_values_session_acct
+     - a forgotten Drain destroys nothing  C02_drain_forgotten_log
+     - retain / and_modify closures that REPLACE the value
+                                           C02_retain_conserves_gen, C02_call_pred_acct_gen,
+                                           C02_and_modify_acct_gen, C02_call_modf_acct_gen
+     - clone_from, From<[_;N]>, collect, serde decode
+                                           C02_op_clone_acct, C02_op_from_iter_acct,
+                                           C02_from_iter_arr_acct, C02_from_iter_NoDup,
+                                           C02_conserves_visit_map, C02_conserves_visit_seq,
+                                           C02_op_serde_acct, C02_op_serde_set_acct
    ========================================================================== *)
 Require Import Model.Base Model.Slots Model.MapOps Model.EntryOps Model.SetOps Model.Fmt Model.Exec.
 Require Import Proofs.Hoare Proofs.Inv Proofs.Safety Proofs.Safety2 Proofs.Safety3 Proofs.Spec Proofs.IterSpec
@@ -465,7 +486,17 @@ Proof. exact (@conserves_or_insert). Qed.
 Print Assumptions C02_conserves_or_insert.
 
 (* Entry::or_insert_with: the closure's value (made_entry) enters only when the
-   entry is Vacant and the closure returns *)
+   entry is Vacant and the closure returns.  PANIC clause, second conjunct
+   (Owned2.entry_closure_exit): when the entry is Vacant and it is the CLOSURE
+   that panics (fst (f (cb w)) = None), the VacantEntry - alive while the closure
+   runs - is destroyed by unwinding: the container is untouched and the key is
+   destroyed exactly once, nothing is lost:
+     closure_panic_exit E k w w' :=
+       self w' = self w /\ log w' = (log w ++ [EvCall 2]) ++ ev_drops (idK E k)
+     entry_closure_exit E e f w w' :=
+       match e with Occupied _ => True
+                  | Vacant k => fst (f (cb w)) = None -> closure_panic_exit E k w w' end
+   (hence acct E w w' (idK E k) [] []: C02_closure_panic_exit_acct) *)
 Theorem C02_conserves_or_insert_with :
   forall (K V Q T : Type) (E : env K V Q T) (debug : bool) (e : @entry K)
          (f : T -> option V * T) (w : world K V T),
@@ -474,10 +505,34 @@ Theorem C02_conserves_or_insert_with :
   wp (or_insert_with E debug e f)
     (fun (i : nat) (w' : world K V T) =>
        cpostN E w (ids_entry E e ++ made_entry E e f w) [] w' /\ i < len (self w'))
-    (cpostP E w (ids_entry E e ++ made_entry E e f w))
+    (fun w' : world K V T =>
+       cpostP E w (ids_entry E e ++ made_entry E e f w) w' /\ entry_closure_exit E e f w w')
     w.
 Proof. exact (@conserves_or_insert_with). Qed.
 Print Assumptions C02_conserves_or_insert_with.
+
+Theorem C02_closure_panic_exit_acct :
+  forall (K V Q T : Type) (E : env K V Q T) (k : K) (w w' : world K V T),
+  closure_panic_exit E k w w' -> acct E w w' (idK E k) [] [].
+Proof. exact (@closure_panic_exit_acct). Qed.
+Print Assumptions C02_closure_panic_exit_acct.
+
+(* Entry::or_insert_with_key: the same, the closure receives the key by reference *)
+Theorem C02_conserves_or_insert_with_key :
+  forall (K V Q T : Type) (E : env K V Q T) (debug : bool) (e : @entry K)
+         (f : K -> T -> option V * T) (w : world K V T),
+  WF (self w) ->
+  entry_ok e (self w) ->
+  let made := match e with Occupied _ => [] | Vacant k => made_val E (f k) w end in
+  wp (or_insert_with_key E debug e f)
+    (fun (i : nat) (w' : world K V T) =>
+       cpostN E w (ids_entry E e ++ made) [] w' /\ i < len (self w'))
+    (fun w' : world K V T =>
+       cpostP E w (ids_entry E e ++ made) w' /\
+       match e with Occupied _ => True | Vacant k => entry_closure_exit E e (f k) w w' end)
+    w.
+Proof. exact (@conserves_or_insert_with_key). Qed.
+Print Assumptions C02_conserves_or_insert_with_key.
 
 (* Entry::and_modify: the closure may rewrite the value in place but not swap
    its identity *)
@@ -747,5 +802,842 @@ Proof.
   split; [intros i _ Hn; destruct i as [|[|[|i]]]; try reflexivity; exfalso; apply Hn; destruct i; reflexivity|].
   split; [vm_compute; reflexivity|]. vm_compute.
   repeat constructor; cbn [In]; intros H;
+    repeat (destruct H as [H | H]; try discriminate H); exact H.
+Qed.
+
+
+(* ========================================================================== *)
+(* ADDENDUM (audit closure) — ownership ALONG A HISTORY, abandoned iterators,
+   closures that replace the value.   New lemmas: Proofs/MoreOwned.v.
+
+   VOCABULARY (Proofs/MoreOwned.v, Proofs/Dict.v, Dict2.v, SetDict.v)
+     mstep E debug o / mfinal E debug ops w   (Dict.v) the 13 dictionary
+                      operations insert, insert_key_value, checked_insert, get,
+                      get_mut(+write), get_key_value, contains_key, index,
+                      index_mut(+write), remove, remove_entry, retain, clear as
+                      one interpreter step / the world after the whole history
+                      (a step that PANICS continues on the world left by
+                      unwinding; None = UB happened).  mstep2 / mfinal2 (Dict2.v)
+                      add drain(take n, then drop), whole-container iteration,
+                      entry(k).or_insert(v) and extend; sstep / smfinal
+                      (SetDict.v) are the Set methods insert, replace, contains,
+                      get, remove, take, retain, clear, extend.
+     op_ins E o       identities the call takes from the caller: ids of (k,v) for
+                      the inserts, ids of v' for get_mut/index_mut followed by
+                      `*r = v'`, [] otherwise.         (op2_ins, sop_ins alike)
+     op_outs E o r    identities handed back with result r: the displaced value
+                      (insert, get_mut+write, index_mut+write), the removed value
+                      / pair, the displaced pair (insert_key_value); for get_mut
+                      on an absent key the never-moved v'; [] otherwise (a value
+                      read through a shared reference is not handed out).
+     op_ok E o        only for DRetain g: the closure may rewrite the value in
+                      place but keeps its identity, forall k v,
+                      idV E (snd (g k v)) = idV E v  (C02_retain_conserves_gen
+                      below is the form without this restriction); True otherwise.
+     mouts E debug ops w   concatenation of op_outs of every step of the history
+                      that RETURNED (a step that panicked hands nothing back):
+                      what the caller holds after the history.
+     mouts_x          the same, plus what a panicking IndexMut left with the
+                      caller (op_pouts: the v' that was never moved).
+     conservesW       `conserves` without its Tidy clause.
+     exactly / xpost  both outcomes: WF, same cap, Tidy again, acct with lost = [].
+   ========================================================================== *)
+Require Import Proofs.Lawful Proofs.Dict Proofs.Dict2 Proofs.SetDict Proofs.ExecUniq Proofs.FmtSerde Proofs.MoreOwned.
+
+(* -------------------------------------------------------------------------- *)
+(* "is destroyed exactly once overall, however the container ... [is] used":
+   one conservation triple per interpreter step, for EVERY environment ...     *)
+Theorem C02_mstep_conserves :
+  forall (K V Q T : Type) (E : env K V Q T) (debug : bool) (o : dop),
+  op_ok E o -> conserves E (mstep E debug o) (op_ins E o) (op_outs E o).
+Proof. exact (@mstep_conserves). Qed.
+Print Assumptions C02_mstep_conserves.
+
+Theorem C02_mstep2_conservesW :
+  forall (K V Q T : Type) (E : env K V Q T) (debug : bool) (o : dop2),
+  op2_ok E o -> conservesW E (mstep2 E debug o) (op2_ins E o) (op2_outs E o).
+Proof. exact (@mstep2_conservesW). Qed.
+Print Assumptions C02_mstep2_conservesW.
+
+Theorem C02_sstep_conserves :
+  forall (K Q T : Type) (E : env K unit Q T) (debug : bool),
+  idV E tt = [] -> forall o : sop, conserves E (sstep E debug o) (sop_ins E o) (sop_outs E o).
+Proof. exact (@sstep_conserves). Qed.
+Print Assumptions C02_sstep_conserves.
+
+(* ... composed over ANY history by induction (both outcomes of every step: a
+   panicking step continues on the unwound state).  E is arbitrary: ==, Clone,
+   Drop may lie, change their mind and panic.  `lost` collects what panicking
+   steps leaked. *)
+Theorem C02_run_acct :
+  forall (K V Q T : Type) (E : env K V Q T) (debug : bool) (ops : list dop) (w : world K V T),
+  WF (self w) ->
+  Forall (op_ok E) ops ->
+  exists (wf : world K V T) (lost : list N),
+    mfinal E debug ops w = Some wf /\
+    WF (self wf) /\
+    cap (self wf) = cap (self w) /\
+    Permutation (owned E (self wf) ++ mouts E debug ops w ++ lost ++ dropped (log wf))
+      (owned E (self w) ++ flat_map (op_ins E) ops ++ dropped (log w)).
+Proof. exact (@run_acct). Qed.
+Print Assumptions C02_run_acct.
+
+(* Assumed: the identities stored at the start, those of ALL arguments of
+   the history, those of uninvolved objects (extra) and those already destroyed
+   are pairwise distinct.  Conclusion: after the history no identity occurs twice
+   among stored ++ held by the caller ++ extra ++ destroyed - nothing is
+   destroyed twice anywhere in the history, nothing destroyed is still stored. *)
+Theorem C02_run_NoDup :
+  forall (K V Q T : Type) (E : env K V Q T) (debug : bool) (ops : list dop)
+    (w wf : world K V T) (extra : list N),
+  WF (self w) ->
+  Forall (op_ok E) ops ->
+  NoDup (owned E (self w) ++ flat_map (op_ins E) ops ++ extra ++ dropped (log w)) ->
+  mfinal E debug ops w = Some wf ->
+  NoDup (owned E (self wf) ++ mouts E debug ops w ++ extra ++ dropped (log wf)).
+Proof. exact (@run_NoDup). Qed.
+Print Assumptions C02_run_NoDup.
+
+Theorem C02_run_no_double_drop :
+  forall (K V Q T : Type) (E : env K V Q T) (debug : bool) (ops : list dop)
+    (w wf : world K V T),
+  WF (self w) ->
+  Forall (op_ok E) ops ->
+  NoDup (owned E (self w) ++ flat_map (op_ins E) ops ++ dropped (log w)) ->
+  mfinal E debug ops w = Some wf ->
+  NoDup (dropped (log wf)) /\
+  NoDup (owned E (self wf)) /\
+  (forall x : N,
+   In x (owned E (self wf)) -> ~ In x (dropped (log wf)) /\ ~ In x (mouts E debug ops w)) /\
+  (forall x : N, In x (mouts E debug ops w) -> ~ In x (dropped (log wf))).
+Proof. exact (@run_no_double_drop). Qed.
+Print Assumptions C02_run_no_double_drop.
+
+(* "at every moment": after any prefix of the history, counting the arguments of
+   the operations still to come *)
+Theorem C02_run_NoDup_prefix :
+  forall (K V Q T : Type) (E : env K V Q T) (debug : bool) (ops : list dop) 
+    (n : nat) (w wn : world K V T),
+  WF (self w) ->
+  Forall (op_ok E) ops ->
+  NoDup (owned E (self w) ++ flat_map (op_ins E) ops ++ dropped (log w)) ->
+  mfinal E debug (firstn n ops) w = Some wn ->
+  NoDup
+    (owned E (self wn) ++
+     mouts E debug (firstn n ops) w ++ flat_map (op_ins E) (skipn n ops) ++ dropped (log wn)).
+Proof. exact (@run_NoDup_prefix). Qed.
+Print Assumptions C02_run_NoDup_prefix.
+
+(* the same with drains (taken n, then dropped), iteration, entry and extend
+   interleaved, and for Set (hypothesis: () carries no identity,
+   C02_example_unit_no_id) *)
+Theorem C02_run2_acct :
+  forall (K V Q T : Type) (E : env K V Q T) (debug : bool) (ops : list dop2) (w : world K V T),
+  WF (self w) ->
+  Forall (op2_ok E) ops ->
+  exists (wf : world K V T) (lost : list N),
+    mfinal2 E debug ops w = Some wf /\
+    WF (self wf) /\
+    cap (self wf) = cap (self w) /\
+    Permutation (owned E (self wf) ++ mouts2 E debug ops w ++ lost ++ dropped (log wf))
+      (owned E (self w) ++ flat_map (op2_ins E) ops ++ dropped (log w)).
+Proof. exact (@run2_acct). Qed.
+Print Assumptions C02_run2_acct.
+
+Theorem C02_run2_NoDup :
+  forall (K V Q T : Type) (E : env K V Q T) (debug : bool) (ops : list dop2)
+    (w wf : world K V T) (extra : list N),
+  WF (self w) ->
+  Forall (op2_ok E) ops ->
+  NoDup (owned E (self w) ++ flat_map (op2_ins E) ops ++ extra ++ dropped (log w)) ->
+  mfinal2 E debug ops w = Some wf ->
+  NoDup (owned E (self wf) ++ mouts2 E debug ops w ++ extra ++ dropped (log wf)).
+Proof. exact (@run2_NoDup). Qed.
+Print Assumptions C02_run2_NoDup.
+
+Theorem C02_srun_acct :
+  forall (K Q T : Type) (E : env K unit Q T) (debug : bool),
+  idV E tt = [] ->
+  forall (ops : list sop) (w : world K unit T),
+  WF (self w) ->
+  exists (wf : world K unit T) (lost : list N),
+    smfinal E debug ops w = Some wf /\
+    WF (self wf) /\
+    cap (self wf) = cap (self w) /\
+    Permutation (owned E (self wf) ++ souts E debug ops w ++ lost ++ dropped (log wf))
+      (owned E (self w) ++ flat_map (sop_ins E) ops ++ dropped (log w)).
+Proof. exact (@srun_acct). Qed.
+Print Assumptions C02_srun_acct.
+
+Theorem C02_srun_NoDup :
+  forall (K Q T : Type) (E : env K unit Q T) (debug : bool),
+  idV E tt = [] ->
+  forall (ops : list sop) (w wf : world K unit T) (extra : list N),
+  WF (self w) ->
+  NoDup (owned E (self w) ++ flat_map (sop_ins E) ops ++ extra ++ dropped (log w)) ->
+  smfinal E debug ops w = Some wf ->
+  NoDup (owned E (self wf) ++ souts E debug ops w ++ extra ++ dropped (log wf)).
+Proof. exact (@srun_NoDup). Qed.
+Print Assumptions C02_srun_NoDup.
+
+(* -------------------------------------------------------------------------- *)
+(* "that lost = [] needs Tidy ... never shown to be preserved along a run":
+   under a lawful environment (Spec.Lawful: == is class equality and never
+   panics, Drop never panics; closures of mstep are pure) every step, returning
+   OR panicking, leaves the container Tidy, and the accounting is EXACT (no
+   `lost`): every identity is in exactly one place - stored / with the caller /
+   destroyed - after every history.  A lawful panic is a rejection (insert into a
+   full map: the arguments are destroyed once; Index of an absent key). *)
+Theorem C02_step_tidy :
+  forall (K V Q T : Type) (E : env K V Q T) (debug : bool) (ck : K -> N) (cq : Q -> N),
+  Lawful E ck cq ->
+  forall (o : dop) (w : world K V T),
+  op_ok E o ->
+  WF (self w) ->
+  Tidy (self w) ->
+  match mstep E debug o w with
+  | Ok _ w' | Panic w' => Tidy (self w')
+  | UB => False
+  end.
+Proof. exact (@step_tidy). Qed.
+Print Assumptions C02_step_tidy.
+
+Theorem C02_run_tidy :
+  forall (K V Q T : Type) (E : env K V Q T) (debug : bool) (ck : K -> N) (cq : Q -> N),
+  Lawful E ck cq ->
+  forall (ops : list dop) (w wf : world K V T),
+  WF (self w) ->
+  Tidy (self w) -> Forall (op_ok E) ops -> mfinal E debug ops w = Some wf -> Tidy (self wf).
+Proof. exact (@run_tidy). Qed.
+Print Assumptions C02_run_tidy.
+
+Theorem C02_run_exact :
+  forall (K V Q T : Type) (E : env K V Q T) (debug : bool) (ck : K -> N) (cq : Q -> N),
+  Lawful E ck cq ->
+  forall (ops : list dop) (w : world K V T),
+  WF (self w) ->
+  Tidy (self w) ->
+  Forall (op_ok E) ops ->
+  exists wf : world K V T,
+    mfinal E debug ops w = Some wf /\
+    WF (self wf) /\
+    cap (self wf) = cap (self w) /\
+    Tidy (self wf) /\
+    Permutation (owned E (self wf) ++ mouts_x E debug ops w ++ dropped (log wf))
+      (owned E (self w) ++ flat_map (op_ins E) ops ++ dropped (log w)).
+Proof. exact (@run_exact). Qed.
+Print Assumptions C02_run_exact.
+
+Theorem C02_run_exact_new :
+  forall (K V Q T : Type) (E : env K V Q T) (debug : bool) (ck : K -> N) (cq : Q -> N),
+  Lawful E ck cq ->
+  forall (n : nat) (ops : list dop) (s : T),
+  Forall (op_ok E) ops ->
+  let w0 := {| cb := s; log := []; self := new_map n |} in
+  exists wf : world K V T,
+    mfinal E debug ops w0 = Some wf /\
+    Tidy (self wf) /\
+    Permutation (owned E (self wf) ++ mouts_x E debug ops w0 ++ dropped (log wf))
+      (flat_map (op_ins E) ops).
+Proof. exact (@run_exact_new). Qed.
+Print Assumptions C02_run_exact_new.
+
+Theorem C02_sstep_tidy :
+  forall (K Q T : Type) (E : env K unit Q T) (debug : bool) (ck : K -> N) (cq : Q -> N),
+  Lawful E ck cq ->
+  idV E tt = [] ->
+  forall (o : sop) (w : world K unit T),
+  WF (self w) ->
+  Tidy (self w) ->
+  match sstep E debug o w with
+  | Ok _ w' | Panic w' => Tidy (self w')
+  | UB => False
+  end.
+Proof. exact (@sstep_tidy). Qed.
+Print Assumptions C02_sstep_tidy.
+
+Theorem C02_srun_tidy :
+  forall (K Q T : Type) (E : env K unit Q T) (debug : bool) (ck : K -> N) (cq : Q -> N),
+  Lawful E ck cq ->
+  idV E tt = [] ->
+  forall (ops : list sop) (w wf : world K unit T),
+  WF (self w) -> Tidy (self w) -> smfinal E debug ops w = Some wf -> Tidy (self wf).
+Proof. exact (@srun_tidy). Qed.
+Print Assumptions C02_srun_tidy.
+
+Theorem C02_srun_exact :
+  forall (K Q T : Type) (E : env K unit Q T) (debug : bool) (ck : K -> N) (cq : Q -> N),
+  Lawful E ck cq ->
+  idV E tt = [] ->
+  forall (ops : list sop) (w : world K unit T),
+  WF (self w) ->
+  Tidy (self w) ->
+  exists wf : world K unit T,
+    smfinal E debug ops w = Some wf /\
+    WF (self wf) /\
+    cap (self wf) = cap (self w) /\
+    Tidy (self wf) /\
+    Permutation (owned E (self wf) ++ souts E debug ops w ++ dropped (log wf))
+      (owned E (self w) ++ flat_map (sop_ins E) ops ++ dropped (log w)).
+Proof. exact (@srun_exact). Qed.
+Print Assumptions C02_srun_exact.
+
+(* -------------------------------------------------------------------------- *)
+(* "its consuming iterators (into_iter, into_keys, into_values) ... partially
+   consumed, dropped early": take n items, then drop the iterator (Drop for Map
+   on what is left).  into_run n = n calls of IntoIter::next (pops from the END);
+   evp E p = the drop events of pair p.  The destructor destroys exactly the
+   len - n entries not yet yielded, each once, in slot order; every original
+   entry is yielded or destroyed, never both; if a Drop panics a prefix of them
+   was destroyed (the rest leaks). *)
+Theorem C02_into_session_logs :
+  forall (K V Q T : Type) (E : env K V Q T) (n : nat) (w : world K V T),
+  WF (self w) ->
+  wp (r <- into_run n;; drop_map E;; ret r)
+    (fun (r : list (K * V)) (w' : world K V T) =>
+     r = firstn n (rev (elems (self w))) /\
+     log w' = log w ++ flat_map (evp E) (firstn (len (self w) - n) (elems (self w))) /\
+     Permutation (r ++ firstn (len (self w) - n) (elems (self w))) (elems (self w)))
+    (fun w' : world K V T =>
+     exists k : nat,
+       log w' =
+       log w ++ flat_map (evp E) (firstn k (firstn (len (self w) - n) (elems (self w))))) w.
+Proof. exact (@into_session_logs). Qed.
+Print Assumptions C02_into_session_logs.
+
+Theorem C02_into_session_NoDup :
+  forall (K V Q T : Type) (E : env K V Q T) (n : nat) (w : world K V T),
+  WF (self w) ->
+  NoDup (flat_map (ids_pair E) (elems (self w))) ->
+  wp (r <- into_run n;; drop_map E;; ret r)
+    (fun (r : list (K * V)) (w' : world K V T) =>
+     exists evs : list event,
+       log w' = log w ++ evs /\
+       NoDup (flat_map (ids_pair E) r ++ dropped evs) /\
+       Permutation (flat_map (ids_pair E) r ++ dropped evs)
+         (flat_map (ids_pair E) (elems (self w))))
+    (fun w' : world K V T =>
+     exists evs : list event,
+       log w' = log w ++ evs /\
+       NoDup (flat_map (ids_pair E) (firstn n (rev (elems (self w)))) ++ dropped evs)) w.
+Proof. exact (@into_session_NoDup). Qed.
+Print Assumptions C02_into_session_NoDup.
+
+(* ledger form, also for IntoKeys / IntoValues (ss_into_keys_run E n = n calls of
+   Owned2.into_keys_next E, which destroys the value half of each yielded pair):
+   from a Tidy state nothing is lost and nothing remains stored *)
+Theorem C02_into_session_acct :
+  forall (K V Q T : Type) (E : env K V Q T) (n : nat) (w : world K V T),
+  WF (self w) ->
+  wp (r <- into_run n;; drop_map E;; ret r)
+    (fun (r : list (K * V)) (w' : world K V T) =>
+     exists lost : list N,
+       acct E w w' [] (flat_map (ids_pair E) r) lost /\
+       (Tidy (self w) -> lost = [] /\ owned E (self w') = []))
+    (fun w' : world K V T => exists lost : list N, acct E w w' [] [] lost) w.
+Proof. exact (@into_session_acct). Qed.
+Print Assumptions C02_into_session_acct.
+
+Theorem C02_into_keys_session_acct :
+  forall (K V Q T : Type) (E : env K V Q T) (n : nat) (w : world K V T),
+  WF (self w) ->
+  wp (r <- ss_into_keys_run E n;; drop_map E;; ret r)
+    (fun (r : list K) (w' : world K V T) =>
+     exists lost : list N,
+       acct E w w' [] (flat_map (idK E) r) lost /\
+       (Tidy (self w) -> lost = [] /\ owned E (self w') = []))
+    (fun w' : world K V T => exists lost : list N, acct E w w' [] [] lost) w.
+Proof. exact (@into_keys_session_acct). Qed.
+Print Assumptions C02_into_keys_session_acct.
+
+Theorem C02_into_values_session_acct :
+  forall (K V Q T : Type) (E : env K V Q T) (n : nat) (w : world K V T),
+  WF (self w) ->
+  wp (r <- ss_into_values_run E n;; drop_map E;; ret r)
+    (fun (r : list V) (w' : world K V T) =>
+     exists lost : list N,
+       acct E w w' [] (flat_map (idV E) r) lost /\
+       (Tidy (self w) -> lost = [] /\ owned E (self w') = []))
+    (fun w' : world K V T => exists lost : list N, acct E w w' [] [] lost) w.
+Proof. exact (@into_values_session_acct). Qed.
+Print Assumptions C02_into_values_session_acct.
+
+(* "or forgotten": mem::forget of a Drain after n items destroys NOTHING (log
+   unchanged); the map is empty at once (len = 0, so the not-yielded elements
+   left in the dead slots are never touched again: leaked, not destroyed twice);
+   the yielded items are the caller's *)
+Theorem C02_drain_forgotten_log :
+  forall (K V Q T : Type) (E : env K V Q T) (n : nat) (w : world K V T),
+  WF (self w) ->
+  wp (c <- drain;; drain_run n c)
+    (fun (r : list (K * V) * cursor) (w' : world K V T) =>
+     WF (self w') /\
+     len (self w') = 0 /\
+     cap (self w') = cap (self w) /\
+     log w' = log w /\
+     fst r = firstn n (elems (self w)) /\
+     Permutation (owned E (self w') ++ flat_map (ids_pair E) (fst r)) (owned E (self w)))
+    (fun _ : world K V T => False) w.
+Proof. exact (@drain_forgotten_log). Qed.
+Print Assumptions C02_drain_forgotten_log.
+
+(* -------------------------------------------------------------------------- *)
+(* retain / and_modify when the closure REPLACES `*v` by a new object.  The model
+   writes the value the closure returns into the slot and logs no drop event for
+   the old one (in Rust the assignment inside the closure runs the old value's
+   destructor in USER code): the old value's identities are handed OUT to the
+   closure, the new one's come IN.
+     ss_pred_post E f i w w' := exists k v v', slot i of w held (k,v) /\
+        v' = snd (fst (f (cb w) k v)) /\ slot i of w' holds (k,v') /\
+        cpostN E w (idV E v') (idV E v) w' /\ len (self w') = len (self w)
+     ss_modf_post: the same for and_modify's closure
+     ss_pred_rel f v v' := exists s k, snd (fst (f s k v)) = v'
+   For the whole retain: olds = the values the closure replaced, news = what it
+   returned for them; nothing is lost from a tidy state even when the closure or
+   a Drop panics (the panic postcondition is the full cpostN). *)
+Theorem C02_call_pred_acct_gen :
+  forall (K V Q T : Type) (E : env K V Q T) (f : pred_t) (i : nat) (w : world K V T),
+  WF (self w) ->
+  i < len (self w) ->
+  wp (call_pred f i) (fun _ : bool => ss_pred_post E f i w) (ss_pred_post E f i w) w.
+Proof. exact (@call_pred_acct_gen). Qed.
+Print Assumptions C02_call_pred_acct_gen.
+
+Theorem C02_retain_conserves_gen :
+  forall (K V Q T : Type) (E : env K V Q T) (debug : bool) (f : pred_t) (w : world K V T),
+  WF (self w) ->
+  wp (retain E debug f)
+    (fun (_ : unit) (w' : world K V T) =>
+     exists olds news : list V,
+       Forall2 (ss_pred_rel f) olds news /\
+       cpostN E w (flat_map (idV E) news) (flat_map (idV E) olds) w')
+    (fun w' : world K V T =>
+     exists olds news : list V,
+       Forall2 (ss_pred_rel f) olds news /\
+       cpostN E w (flat_map (idV E) news) (flat_map (idV E) olds) w') w.
+Proof. exact (@retain_conserves_gen). Qed.
+Print Assumptions C02_retain_conserves_gen.
+
+Theorem C02_call_modf_acct_gen :
+  forall (K V Q T : Type) (E : env K V Q T) (f : modf_t) (i : nat) (w : world K V T),
+  WF (self w) ->
+  i < len (self w) ->
+  wp (call_modf f i) (fun _ : unit => ss_modf_post E f i w) (ss_modf_post E f i w) w.
+Proof. exact (@call_modf_acct_gen). Qed.
+Print Assumptions C02_call_modf_acct_gen.
+
+Theorem C02_and_modify_acct_gen :
+  forall (K V Q T : Type) (E : env K V Q T) (e : entry) (f : modf_t) (w : world K V T),
+  WF (self w) ->
+  entry_ok e (self w) ->
+  wp (and_modify e f)
+    (fun (e' : entry) (w' : world K V T) =>
+     e' = e /\
+     entry_ok e' (self w') /\
+     match e with
+     | Occupied i => ss_modf_post E f i w w'
+     | Vacant k => cpostN E w (idK E k) (idK E k) w'
+     end)
+    (fun w' : world K V T =>
+     match e with
+     | Occupied i => ss_modf_post E f i w w'
+     | Vacant _ => False
+     end) w.
+Proof. exact (@and_modify_acct_gen). Qed.
+Print Assumptions C02_and_modify_acct_gen.
+
+(* the identity hypothesis of C02_conserves_retain / C02_conserves_and_modify and
+   of op_ok holds of the interpreter's closures, for EVERY script *)
+Theorem C02_pred_m_keeps_id :
+  forall (sc : script) (dflt : N) (tab : list (N * N)) (s : cstate) (k : key) (v : vobj),
+  idV (env_map sc) (snd (fst (pred_m sc dflt tab s k v))) = idV (env_map sc) v.
+Proof. exact (@pred_m_keeps_id). Qed.
+Print Assumptions C02_pred_m_keeps_id.
+
+Theorem C02_conserves_retain_pred_m :
+  forall (debug : bool) (sc : script) (dflt : N) (tab : list (N * N)),
+  conserves (env_map sc) (retain (env_map sc) debug (pred_m sc dflt tab)) []
+    (fun _ : unit => []).
+Proof. exact (@conserves_retain_pred_m). Qed.
+Print Assumptions C02_conserves_retain_pred_m.
+
+Theorem C02_modf_add_keeps_id :
+  forall (sc : script) (s : cstate) (v : vobj),
+  idV (env_map sc) (snd (fst (modf_add sc s v))) = idV (env_map sc) v.
+Proof. exact (@modf_add_keeps_id). Qed.
+Print Assumptions C02_modf_add_keeps_id.
+
+(* -------------------------------------------------------------------------- *)
+(* Clone::clone / clone_from, FromIterator, From<[_; N]>, serde decode at
+   OPERATION level (the shape the interpreter runs: Exec.replace_with E build
+   body = build a fresh container in a local starting from Map::new(), install
+   it in the register, then drop the old contents).  EVERY environment.
+   Normal return: the register holds the fresh container (Tidy); d = what the
+   drop of the OLD contents destroyed, d ++ lost = the old contents (lost = []
+   from a tidy register); everything built is stored or was destroyed once.
+   Panic, first disjunct: the BUILD panicked - self w' = self w: the register is
+   untouched, what had been built was destroyed by the local's own destructor
+   or leaked.  Panic, second disjunct: the build succeeded and a Drop of an old
+   element panicked: the register already holds the new container. *)
+Theorem C02_replace_with_build_panic_keeps_self :
+  forall (V : Type) (E : env key V query cstate) (build : M key V cstate unit) 
+    (body : list N) (w w1 : world key V cstate),
+  build (with_self w (new_map (cap (self w)))) = Panic w1 ->
+  replace_with E build body w = Panic (with_self w1 (self w)).
+Proof. exact (@replace_with_build_panic_keeps_self). Qed.
+Print Assumptions C02_replace_with_build_panic_keeps_self.
+
+Theorem C02_replace_with_acct :
+  forall (V : Type) (E : env key V query cstate) (build : M key V cstate unit)
+    (body ins : list N) (w : world key V cstate),
+  WF (self w) ->
+  wp build
+    (fun (_ : unit) (w1 : world key V cstate) =>
+     WF (self w1) /\
+     cap (self w1) = cap (self w) /\
+     Tidy (self w1) /\
+     Permutation (owned E (self w1) ++ dropped (log w1)) (ins ++ dropped (log w)))
+    (fun w1 : world key V cstate =>
+     exists lost : list N, Permutation (lost ++ dropped (log w1)) (ins ++ dropped (log w)))
+    (with_self w (new_map (cap (self w)))) ->
+  wp (replace_with E build body)
+    (fun (r : list N) (w' : world key V cstate) =>
+     r = body /\
+     WF (self w') /\
+     cap (self w') = cap (self w) /\
+     Tidy (self w') /\
+     (exists d lost : list N,
+        Permutation (d ++ lost) (owned E (self w)) /\
+        Permutation (owned E (self w') ++ dropped (log w')) (ins ++ dropped (log w) ++ d) /\
+        (Tidy (self w) -> lost = [])))
+    (fun w' : world key V cstate =>
+     self w' = self w /\
+     (exists lost : list N, Permutation (lost ++ dropped (log w')) (ins ++ dropped (log w))) \/
+     WF (self w') /\
+     cap (self w') = cap (self w) /\
+     Tidy (self w') /\
+     (exists d lost : list N,
+        Permutation (d ++ lost) (owned E (self w)) /\
+        Permutation (owned E (self w') ++ dropped (log w')) (ins ++ dropped (log w) ++ d))) w.
+Proof. exact (@replace_with_acct). Qed.
+Print Assumptions C02_replace_with_acct.
+
+Theorem C02_replace_with_acct_NoDup :
+  forall (V : Type) (E : env key V query cstate) (build : M key V cstate unit)
+    (body ins : list N) (w : world key V cstate),
+  WF (self w) ->
+  wp build
+    (fun (_ : unit) (w1 : world key V cstate) =>
+     WF (self w1) /\
+     cap (self w1) = cap (self w) /\
+     Tidy (self w1) /\
+     Permutation (owned E (self w1) ++ dropped (log w1)) (ins ++ dropped (log w)))
+    (fun w1 : world key V cstate =>
+     exists lost : list N, Permutation (lost ++ dropped (log w1)) (ins ++ dropped (log w)))
+    (with_self w (new_map (cap (self w)))) ->
+  NoDup (owned E (self w) ++ ins ++ dropped (log w)) ->
+  wp (replace_with E build body)
+    (fun (_ : list N) (w' : world key V cstate) =>
+     NoDup (owned E (self w') ++ dropped (log w')))
+    (fun w' : world key V cstate => NoDup (owned E (self w') ++ dropped (log w'))) w.
+Proof. exact (@replace_with_acct_NoDup). Qed.
+Print Assumptions C02_replace_with_acct_NoDup.
+
+(* clone / clone_from (OClone, OCloneFrom, SClone, SCloneFrom): made = what the
+   Clone callbacks returned (Owned2.clone_made); src is a parameter: untouched *)
+Theorem C02_op_clone_acct :
+  forall (V : Type) (E : env key V query cstate) (src : map key V) 
+    (body : list N) (w : world key V cstate),
+  WF src ->
+  WF (self w) ->
+  cap src = cap (self w) ->
+  let made := flat_map (ids_pair E) (clone_made E src (len src) 0 (cb w)) in
+  wp (replace_with E (clone_from_src E src) body)
+    (fun (r : list N) (w' : world key V cstate) =>
+     r = body /\
+     WF (self w') /\
+     cap (self w') = cap (self w) /\
+     Tidy (self w') /\
+     len (self w') = len src /\
+     length (clone_made E src (len src) 0 (cb w)) = len src /\
+     Permutation (owned E (self w')) made /\
+     (exists d lost : list N,
+        dropped (log w') = dropped (log w) ++ d /\
+        Permutation (d ++ lost) (owned E (self w)) /\ (Tidy (self w) -> lost = [])))
+    (fun w' : world key V cstate =>
+     self w' = self w /\
+     (exists d lost : list N,
+        dropped (log w') = dropped (log w) ++ d /\ Permutation (d ++ lost) made) \/
+     WF (self w') /\
+     cap (self w') = cap (self w) /\
+     Tidy (self w') /\
+     len (self w') = len src /\
+     Permutation (owned E (self w')) made /\
+     (exists d lost : list N,
+        dropped (log w') = dropped (log w) ++ d /\ Permutation (d ++ lost) (owned E (self w))))
+    w.
+Proof. exact (@op_clone_acct). Qed.
+Print Assumptions C02_op_clone_acct.
+
+(* collect / From<[_; N]>: any source nx; the array source never panics:
+   nx = fun s => (No, s) (Exec.nx_none).  Every item is stored or destroyed
+   exactly once, in both outcomes *)
+Theorem C02_op_from_iter_acct :
+  forall (V : Type) (E : env key V query cstate) (debug : bool) (nx : cstate -> ans * cstate)
+    (items : list (key * V)) (body : list N) (w : world key V cstate),
+  WF (self w) ->
+  let ins := flat_map (ids_pair E) items in
+  wp (replace_with E (from_iter E debug nx items) body)
+    (fun (r : list N) (w' : world key V cstate) =>
+     r = body /\
+     WF (self w') /\
+     cap (self w') = cap (self w) /\
+     Tidy (self w') /\
+     (exists d lost : list N,
+        Permutation (d ++ lost) (owned E (self w)) /\
+        Permutation (owned E (self w') ++ dropped (log w')) (ins ++ dropped (log w) ++ d) /\
+        (Tidy (self w) -> lost = [])))
+    (fun w' : world key V cstate =>
+     self w' = self w /\
+     (exists lost : list N, Permutation (lost ++ dropped (log w')) (ins ++ dropped (log w))) \/
+     WF (self w') /\
+     cap (self w') = cap (self w) /\
+     Tidy (self w') /\
+     (exists d lost : list N,
+        Permutation (d ++ lost) (owned E (self w)) /\
+        Permutation (owned E (self w') ++ dropped (log w')) (ins ++ dropped (log w) ++ d))) w.
+Proof. exact (@op_from_iter_acct). Qed.
+Print Assumptions C02_op_from_iter_acct.
+
+Theorem C02_from_iter_arr_acct :
+  forall (K V Q T : Type) (E : env K V Q T) (debug : bool) (items : list (K * V))
+    (w : world K V T),
+  WF (self w) ->
+  wp (from_iter E debug (fun s : T => (No, s)) items)
+    (fun (_ : unit) (w' : world K V T) =>
+     WF (self w') /\
+     cap (self w') = cap (self w) /\
+     (exists lost : list N,
+        acct E w w' (flat_map (ids_pair E) items) [] lost /\
+        (Tidy (self w) -> lost = [] /\ Tidy (self w'))))
+    (fun w' : world K V T =>
+     exists lost : list N, acct E w w' (flat_map (ids_pair E) items) [] lost) w.
+Proof. exact (@from_iter_arr_acct). Qed.
+Print Assumptions C02_from_iter_arr_acct.
+
+Theorem C02_from_iter_NoDup :
+  forall (K V Q T : Type) (E : env K V Q T) (debug : bool) (nx : T -> ans * T)
+    (items : list (K * V)) (w : world K V T),
+  WF (self w) ->
+  NoDup (owned E (self w) ++ flat_map (ids_pair E) items ++ dropped (log w)) ->
+  wp (from_iter E debug nx items)
+    (fun (_ : unit) (w' : world K V T) => NoDup (owned E (self w') ++ dropped (log w')))
+    (fun w' : world K V T => NoDup (owned E (self w') ++ dropped (log w'))) w.
+Proof. exact (@from_iter_NoDup). Qed.
+Print Assumptions C02_from_iter_NoDup.
+
+Theorem C02_s_from_iter_arr_acct :
+  forall (K Q T : Type) (E : env K unit Q T) (debug : bool),
+  idV E tt = [] ->
+  forall (items : list K) (w : world K unit T),
+  WF (self w) ->
+  wp (s_from_iter E debug (fun s : T => (No, s)) items)
+    (fun (_ : unit) (w' : world K unit T) =>
+     WF (self w') /\
+     cap (self w') = cap (self w) /\
+     (exists lost : list N,
+        acct E w w' (flat_map (fun k : K => ids_pair E (k, tt)) items) [] lost /\
+        (Tidy (self w) -> lost = [] /\ Tidy (self w'))))
+    (fun w' : world K unit T =>
+     exists lost : list N,
+       acct E w w' (flat_map (fun k : K => ids_pair E (k, tt)) items) [] lost) w.
+Proof. exact (@cf_s_from_iter_arr_acct). Qed.
+Print Assumptions C02_s_from_iter_arr_acct.
+
+Theorem C02_op_s_from_iter_acct :
+  forall (E : env key unit query cstate) (debug : bool),
+  idV E tt = [] ->
+  forall (nx : cstate -> ans * cstate) (items : list key) (body : list N) (w : sworld),
+  WF (self w) ->
+  let ins := flat_map (fun k : key => ids_pair E (k, tt)) items in
+  wp (replace_with E (s_from_iter E debug nx items) body)
+    (fun (r : list N) (w' : sworld) =>
+     r = body /\
+     WF (self w') /\
+     cap (self w') = cap (self w) /\
+     Tidy (self w') /\
+     (exists d lost : list N,
+        Permutation (d ++ lost) (owned E (self w)) /\
+        Permutation (owned E (self w') ++ dropped (log w')) (ins ++ dropped (log w) ++ d) /\
+        (Tidy (self w) -> lost = [])))
+    (fun w' : sworld =>
+     self w' = self w /\
+     (exists lost : list N, Permutation (lost ++ dropped (log w')) (ins ++ dropped (log w))) \/
+     WF (self w') /\
+     cap (self w') = cap (self w) /\
+     Tidy (self w') /\
+     (exists d lost : list N,
+        Permutation (d ++ lost) (owned E (self w)) /\
+        Permutation (owned E (self w') ++ dropped (log w')) (ins ++ dropped (log w) ++ d))) w.
+Proof. exact (@cf_op_s_from_iter_acct). Qed.
+Print Assumptions C02_op_s_from_iter_acct.
+
+(* serde decode (Exec.visit_map / visit_seq): decoding entry j creates the fresh
+   objects next_id, next_id+1 (key, value; one per element for a Set);
+   cf_fresh_ids a n = [a; a+1; ...; a+n-1].  All of them are stored or destroyed
+   once; on a panic after n entries exactly 2n (n) ids were created. *)
+Theorem C02_conserves_visit_map :
+  forall (debug : bool) (sc : script) (items : list (key * vobj)) (w : mworld),
+  WF (self w) ->
+  wp (visit_map debug sc items)
+    (fun (_ : unit) (w' : mworld) =>
+     cpostN (env_map sc) w (cf_fresh_ids (next_id (cb w)) (2 * length items)) [] w' /\
+     next_id (cb w') = (next_id (cb w) + N.of_nat (2 * length items))%N)
+    (fun w' : mworld =>
+     exists n : nat,
+       n <= length items /\
+       cpostP (env_map sc) w (cf_fresh_ids (next_id (cb w)) (2 * n)) w' /\
+       next_id (cb w') = (next_id (cb w) + N.of_nat (2 * n))%N) w.
+Proof. exact (@conserves_visit_map). Qed.
+Print Assumptions C02_conserves_visit_map.
+
+Theorem C02_conserves_visit_seq :
+  forall (debug : bool) (sc : script) (items : list key) (w : sworld),
+  WF (self w) ->
+  wp (visit_seq debug sc items)
+    (fun (_ : unit) (w' : sworld) =>
+     cpostN (env_set sc) w (cf_fresh_ids (next_id (cb w)) (length items)) [] w' /\
+     next_id (cb w') = (next_id (cb w) + N.of_nat (length items))%N)
+    (fun w' : sworld =>
+     exists n : nat,
+       n <= length items /\
+       cpostP (env_set sc) w (cf_fresh_ids (next_id (cb w)) n) w' /\
+       next_id (cb w') = (next_id (cb w) + N.of_nat n)%N) w.
+Proof. exact (@conserves_visit_seq). Qed.
+Print Assumptions C02_conserves_visit_seq.
+
+Theorem C02_op_serde_acct :
+  forall (debug : bool) (sc : script) (src : map key vobj) (body : list N) (w : mworld),
+  WF (self w) ->
+  let L := length (Exec.elems src) in
+  let a := next_id (cb w) in
+  wp
+    (replace_with (env_map sc)
+       (finally_drop (env_map sc) (visit_map debug sc (Exec.elems src))) body)
+    (fun (r : list N) (w' : mworld) =>
+     r = body /\
+     WF (self w') /\
+     cap (self w') = cap (self w) /\
+     Tidy (self w') /\
+     next_id (cb w') = (a + N.of_nat (2 * L))%N /\
+     (exists d lost : list N,
+        Permutation (d ++ lost) (owned (env_map sc) (self w)) /\
+        Permutation (owned (env_map sc) (self w') ++ dropped (log w'))
+          (cf_fresh_ids a (2 * L) ++ dropped (log w) ++ d) /\ (Tidy (self w) -> lost = [])))
+    (fun w' : mworld =>
+     self w' = self w /\
+     (exists (n : nat) (lost : list N),
+        n <= L /\
+        next_id (cb w') = (a + N.of_nat (2 * n))%N /\
+        Permutation (lost ++ dropped (log w')) (cf_fresh_ids a (2 * n) ++ dropped (log w))) \/
+     WF (self w') /\
+     cap (self w') = cap (self w) /\
+     Tidy (self w') /\
+     next_id (cb w') = (a + N.of_nat (2 * L))%N /\
+     (exists d lost : list N,
+        Permutation (d ++ lost) (owned (env_map sc) (self w)) /\
+        Permutation (owned (env_map sc) (self w') ++ dropped (log w'))
+          (cf_fresh_ids a (2 * L) ++ dropped (log w) ++ d))) w.
+Proof. exact (@op_serde_acct). Qed.
+Print Assumptions C02_op_serde_acct.
+
+Theorem C02_op_serde_set_acct :
+  forall (debug : bool) (sc : script) (src : map key unit) (body : list N) (w : sworld),
+  WF (self w) ->
+  let L := length (List.map fst (Exec.elems src)) in
+  let a := next_id (cb w) in
+  wp
+    (replace_with (env_set sc)
+       (finally_drop (env_set sc) (visit_seq debug sc (List.map fst (Exec.elems src)))) body)
+    (fun (r : list N) (w' : sworld) =>
+     r = body /\
+     WF (self w') /\
+     cap (self w') = cap (self w) /\
+     Tidy (self w') /\
+     next_id (cb w') = (a + N.of_nat L)%N /\
+     (exists d lost : list N,
+        Permutation (d ++ lost) (owned (env_set sc) (self w)) /\
+        Permutation (owned (env_set sc) (self w') ++ dropped (log w'))
+          (cf_fresh_ids a L ++ dropped (log w) ++ d) /\ (Tidy (self w) -> lost = [])))
+    (fun w' : sworld =>
+     self w' = self w /\
+     (exists (n : nat) (lost : list N),
+        n <= L /\
+        next_id (cb w') = (a + N.of_nat n)%N /\
+        Permutation (lost ++ dropped (log w')) (cf_fresh_ids a n ++ dropped (log w))) \/
+     WF (self w') /\
+     cap (self w') = cap (self w) /\
+     Tidy (self w') /\
+     next_id (cb w') = (a + N.of_nat L)%N /\
+     (exists d lost : list N,
+        Permutation (d ++ lost) (owned (env_set sc) (self w)) /\
+        Permutation (owned (env_set sc) (self w') ++ dropped (log w'))
+          (cf_fresh_ids a L ++ dropped (log w) ++ d))) w.
+Proof. exact (@cf_op_serde_set_acct). Qed.
+Print Assumptions C02_op_serde_set_acct.
+
+(* -------------------------------------------------------------------------- *)
+(* non-vacuity of the history theorems: a concrete history on the full 3-entry
+   map m3 under an ADVERSARIAL script (seed 4: == lies pseudo-randomly; the other
+   three kinds of misbehaving == are in Props/C17.v): WF, op_ok,
+   freshness hold; the run exists.  The first insert (class 9, absent) gets a
+   wrong "equal" answer and overwrites the value of another key - a wrong answer
+   - yet the ledger balances: stored 13 14, with the caller 4 2 8 6 1 11,
+   destroyed 7 10 3 5 12, and 15 (the value a panicking IndexMut never moved)
+   is the only identity in `lost`. *)
+Definition C02_ops1 : list (@dop key vobj query) :=
+  [DInsert (k_ 7 9) (v_ 8 1); DInsert (k_ 10 5) (v_ 11 2); DRemove (QCls 6); DGetMut (QCls 7) (v_ 12 3);
+   DRetain (fun k v => (N.eqb (kcls k) 5, v)); DInsertKV (k_ 13 5) (v_ 14 4); DIndexMut (QCls 99) (v_ 15 0)].
+Definition C02_sc_adv : script := {| sc_adv := true; sc_seed := 4; sc_fk := 0; sc_fa := 0 |}.   (* 4 mod 4 = 0: PRNG lies *)
+Definition C02_sc0 : script := {| sc_adv := false; sc_seed := 0; sc_fk := 0; sc_fa := 0 |}.
+
+Example C02_example_history_hyps :
+  WF (self (w_of m3)) /\ Forall (op_ok (env_map C02_sc_adv)) C02_ops1 /\
+  NoDup (owned (env_map C02_sc_adv) (self (w_of m3)) ++ flat_map (op_ins (env_map C02_sc_adv)) C02_ops1 ++
+         dropped (log (w_of m3))).
+Proof.
+  split; [exact m3_WF|]. split; [repeat constructor|].
+  vm_compute. repeat constructor; cbn [In]; intros H;
+    repeat (destruct H as [H | H]; try discriminate H); exact H.
+Qed.
+
+Example C02_example_history_adversarial :
+  match mfinal (env_map C02_sc_adv) false C02_ops1 (w_of m3) with
+  | Some wf => owned (env_map C02_sc_adv) (self wf) = [13; 14]%N /\
+               mouts (env_map C02_sc_adv) false C02_ops1 (w_of m3) = [4; 2; 8; 6; 1; 11]%N /\
+               dropped (log wf) = [7; 10; 3; 5; 12]%N
+  | None => False
+  end.
+Proof. vm_compute. repeat split; reflexivity. Qed.
+
+(* the same history under the honest script: env_map C02_sc0 is Lawful, m3 is
+   Tidy (C02_example_Tidy); the accounting is exact, 15 is with the caller *)
+Example C02_example_lawful : Lawful (env_map C02_sc0) kcls qcls.
+Proof. apply env_map_lawful. split; reflexivity. Qed.
+
+Example C02_example_history_honest :
+  match mfinal (env_map C02_sc0) false C02_ops1 (w_of m3) with
+  | Some wf => owned (env_map C02_sc0) (self wf) = [13; 14]%N /\
+               mouts_x (env_map C02_sc0) false C02_ops1 (w_of m3) = [2; 4; 6; 1; 11; 15]%N /\
+               dropped (log wf) = [7; 8; 10; 3; 5; 12]%N
+  | None => False
+  end.
+Proof. vm_compute. repeat split; reflexivity. Qed.
+
+(* the freshness hypothesis of C02_into_session_NoDup holds of m3 *)
+Example C02_example_into_session :
+  NoDup (flat_map (ids_pair (env_map C02_sc0)) (Spec.elems (self (w_of m3)))).
+Proof.
+  vm_compute. repeat constructor; cbn [In]; intros H;
     repeat (destruct H as [H | H]; try discriminate H); exact H.
 Qed.
